@@ -541,10 +541,12 @@ class C01(Check):
                 if via == 'bare':
                     return {nm: imgsim.verdict(i)
                             for nm, i in self.insps.items()}
+                wf = imgsim.w_format(self.w)    # (asked first, see
+                #                                 imgsim.drive_wrapper)
                 d = {nm: imgsim.verdict(i) for nm, i in
                      imgsim.wrapper_inspectors(self.w).items()}
                 d['wrapper'] = {o_: None for o_ in OBS}
-                d['wrapper']['format_match'] = imgsim.w_format(self.w)
+                d['wrapper']['format_match'] = wf
                 d['wrapper']['safety_detail'] = None
                 return d
         a, b = Stream(data_a, sizes_a), Stream(data_b, sizes_b)
